@@ -612,38 +612,69 @@ def rule_render(ctx):
     for n in own_nodes(f):
         if isinstance(n, ast.If):
             pass
-    # the variable finally stored into attr['expr']
-    evar = None
+    # the statements that produce the rendered text: assignments to the
+    # variable finally stored into attr['expr'], or - when the text comes from
+    # a private helper (`self.attr['expr'] = self._format(...)`) - the
+    # helper's return statements.  The condition of each is read from the
+    # path conditions (nested if/elif and guard clauses give the same list).
+    from ..util import template_of, path_conditions
+    evar, g = None, f
     for n in own_nodes(f):
         if isinstance(n, ast.Assign) and any(
                 isinstance(t, ast.Subscript) and isinstance(
                     t.slice, ast.Constant) and t.slice.value == 'expr'
-                for t in n.targets) and isinstance(n.value, ast.Name):
-            evar = n.value.id
-    if evar is None:
+                for t in n.targets):
+            if isinstance(n.value, ast.Name):
+                evar = n.value.id
+            elif isinstance(n.value, ast.Call):
+                eds = [e for e in ctx.cg._resolve_callee(f, n.value.func,
+                                                         n.value, 'call')
+                       if not e.is_ext and e.precision == 'exact']
+                if len(eds) == 1 and eds[0].dst.name.startswith('_'):
+                    g = eds[0].dst
+    if evar is None and g is f:
         raise AnalysisError('Operator.set_expr: rendered variable not found')
-
-    def branch_templates(stmts, cond, out):
-        for st in stmts:
-            if isinstance(st, ast.If):
-                branch_templates(st.body, norm_src(st.test), out)
-                branch_templates(st.orelse, 'else', out)
-            elif isinstance(st, ast.Assign) and isinstance(
-                    st.targets[0], ast.Name) and st.targets[0].id == evar:
-                out.append((cond, st.value, st))
     tl = []
-    branch_templates(f.node.body, '', tl)
-    tl = [t for t in tl if t[0]]
-    if len(tl) < 4:
+    for n in own_nodes(g):
+        if g is f and isinstance(n, ast.Assign) and isinstance(
+                n.targets[0], ast.Name) and n.targets[0].id == evar:
+            val = n.value
+        elif g is not f and isinstance(n, ast.Return) and n.value is not None:
+            val = n.value
+        else:
+            continue
+        pos = [norm_src(c) for c, pol in path_conditions(g, n) if pol]
+        neg = [norm_src(c) for c, pol in path_conditions(g, n) if not pol]
+        if not pos and not neg:
+            continue          # the unconditional initial value
+        tl.append((' and '.join(pos) or 'else', val, n))
+    if len(tl) < 3:
         raise AnalysisError('Operator.set_expr: %d templates found' % len(tl))
+
+    def local_tpl(e, depth=0):
+        """template_of(e), looking through one local name."""
+        tp_ = template_of(e)
+        if tp_ is None and isinstance(e, ast.Name) and depth < 2:
+            from .common import _defs_of
+            ds = [d for d in _defs_of(g, e.id)]
+            tps = [local_tpl(d, depth + 1) for d in ds]
+            if tps and all(t is not None for t in tps):
+                return tps[0]
+        return tp_
+
     for cond, val, st in tl:
         rr.instances += 1
         text = norm_src(val)
+        tp = local_tpl(val)
         if 'u-' in cond or 'u+' in cond:
             # unary: sign directly followed by the operand
-            paren = text.startswith("'(") or "'({}" in text or "'(%s" in text
+            paren = tp is not None and tp[0].startswith('(') and \
+                tp[0].endswith(')')
             if paren:
                 rr.ok('unary sign rendering is parenthesised', OP)
+            elif tp is None:
+                raise AnalysisError('Operator.set_expr: unary rendering `%s` '
+                                    'not understood' % text[:60])
             else:
                 rr.fail(key_of(f, 'unary rendering unparenthesised'),
                         'a unary sign is rendered as `%s` without parentheses: '
@@ -652,25 +683,28 @@ def rule_render(ctx):
                         'parses to a different tree' % text, file=OP,
                         function='Operator.set_expr', line=st.lineno)
         elif "'%'" in cond:
-            if text.startswith("'{}%'") or text.startswith("'%s%%'"):
+            if tp is not None and tp[0] == '{}%':
                 rr.ok('postfix %% rendered after its operand', OP)
+            elif tp is None:
+                raise AnalysisError('Operator.set_expr: percent rendering '
+                                    '`%s` not understood' % text[:60])
             else:
                 rr.fail(key_of(f, 'percent rendering'),
                         'postfix %% is rendered as `%s`' % text, file=OP,
                         function='Operator.set_expr', line=st.lineno)
         else:
-            tok_lists = {evar}
-            for t_, v_, _s in assign_pairs(f):
-                if isinstance(t_, ast.Name) and isinstance(
-                        v_, (ast.ListComp, ast.GeneratorExp)) and any(
-                        isinstance(x, ast.Name) and x.id == (f.vararg or '')
-                        for g_ in v_.generators for x in ast.walk(g_.iter)):
-                    tok_lists.add(t_.id)
-            ok = text.startswith("'(%s)' %") and any(
-                ('.join(%s)' % nm) in text for nm in tok_lists)
-            if ok:
+            joined = tp is not None and len(tp[1]) == 1 and isinstance(
+                tp[1][0], ast.Call) and isinstance(
+                tp[1][0].func, ast.Attribute) and tp[1][0].func.attr == 'join'
+            if tp is not None and tp[0] == '({})' and joined:
                 rr.ok('binary operator (%s) rendered as one parenthesised '
                       'group joined by the operator' % cond, OP)
+            elif not (isinstance(val, ast.Call) and isinstance(
+                    val.func, ast.Attribute) and val.func.attr == 'join') \
+                    and (tp is None or (tp[0] == '({})' and not joined)):
+                # (a bare `sep.join(args)` is understood: no parentheses)
+                raise AnalysisError('Operator.set_expr: binary rendering '
+                                    '`%s` not understood' % text[:60])
             else:
                 rr.fail(key_of(f, 'binary rendering not parenthesised (%s)' %
                                cond[:30]),
